@@ -79,6 +79,7 @@ var nativeReg = map[string]any{
 	"unicode/utf8.RuneLen":           utf8.RuneLen,
 	"path/filepath.Clean":    filepath.Clean,
 	"path/filepath.IsAbs":    filepath.IsAbs,
+	"path/filepath.IsLocal":  filepath.IsLocal,
 	"path/filepath.Match":    filepath.Match,
 	"path/filepath.Split":    filepath.Split,
 	"path/filepath.ToSlash":  filepath.ToSlash,
